@@ -50,7 +50,7 @@ def _recipe(draw):
 @st.composite
 def op_strategy(draw, kind):
     names = ["param", "rho", "translate", "rotate", "symmetry", "set_coord", "replace_mesh", "bc", "matrices", "solve",
-             "solve", "save", "set_iter", "algo", "copy_mesh"]
+             "solve", "save", "set_iter", "algo", "copy_mesh", "save_simu"]
     if kind != "thermal":
         names.append("damping")
     name = draw(st.sampled_from(names))
@@ -115,6 +115,12 @@ def histories(draw, kind):
         sd = draw(st.integers(0, 99))
         ops = [dict(op="solve"), dict(op="save"), dict(op="copy_mesh"), mv, dict(op="bc", seed=sd), dict(op="solve"), dict(op="save"),
                dict(op="set_iter", i=0), dict(op="solve"), dict(op="set_iter", i=1), dict(op="solve")] + ops
+    elif tpl == 4:  # iterations on two meshes, the simulation saved to disk (its older meshes are then read back from their files when
+        # an iteration is restored), the first mesh restored, moved and used
+        mv = draw(st.sampled_from([dict(op="rotate", theta=37.0, center=[0.0, 0.0, 0.0]), dict(op="translate", t=[0.5, -1.0, 0.0]),
+                                   dict(op="set_coord", A=[[1.5, 0.0], [0.25, 0.75]], b=[0.0, 0.5])]))
+        ops = [dict(op="solve"), dict(op="save"), dict(op="replace_mesh", recipe=_recipe(draw)), dict(op="bc", seed=draw(st.integers(0, 99))),
+               dict(op="solve"), dict(op="save"), dict(op="save_simu"), dict(op="set_iter", i=0), mv, dict(op="solve")] + ops
     elif tpl == 1:  # two condition sets with the same counts on other dofs, solved one after the other
         sd = draw(st.integers(0, 32)) * 3
         ops = [dict(op="bc", seed=sd), dict(op="solve"), dict(op="bc", seed=sd + 1), dict(op="solve")] + ops
@@ -258,6 +264,17 @@ def _compare_matrices(rec, live, fresh, tag, sig):
 
 
 def run_history(case, rec):
+    import shutil
+
+    tmpdirs = []
+    try:
+        return _run_history(case, rec, tmpdirs)
+    finally:
+        for t_ in tmpdirs:
+            shutil.rmtree(t_, ignore_errors=True)
+
+
+def _run_history(case, rec, tmpdirs):
     kind = case["kind"]
     base_kind = "elastic" if kind == "shared" else kind
     law = case["law"]
@@ -274,7 +291,18 @@ def run_history(case, rec):
         tag = f"{prev}->{name}"
         sig = dict(sig0, op=name, prev=prev)
         invalidating = name in ("param", "rho", "damping", "translate", "rotate", "symmetry", "set_coord", "replace_mesh", "copy_mesh")
-        if name == "copy_mesh":
+        if name == "save_simu":
+            import tempfile
+
+            tmp = tempfile.mkdtemp(prefix="verif_c14_")
+            tmpdirs.append(tmp)
+            L.simu.Save(tmp)  # the meshes of the history now live in files; the simulation goes on being used
+            # from now on a restore that switches to one of these meshes reads it back from its file: as it was when saved
+            # (a mesh that already lives in a file keeps that file: what was read back from it and moved since is another object)
+            for sl in L.slots:
+                if getattr(sl, "coord_saved", None) is None:
+                    sl.coord_saved = sl.coord.copy()
+        elif name == "copy_mesh":
             m2 = L.simu.mesh.copy()  # Mesh.copy(): an independent mesh with the same nodes and elements
             cur = L.slot.coord.copy()
             L.simu.mesh = m2
@@ -342,6 +370,8 @@ def run_history(case, rec):
             L.simu.Set_Iter(i)
             slot_changed = L.cur != L.saved[i][0]
             L.cur = L.saved[i][0]
+            if slot_changed and getattr(L.slot, "coord_saved", None) is not None:
+                L.slot.coord = L.slot.coord_saved.copy()  # the mesh comes back from its file
             if slot_changed and L.bc is not None:
                 # boundary conditions are lists of node ids of the mesh they were entered on: after a restore that
                 # switches to another mesh the history re-enters them (what they mean on the other mesh is not defined,
@@ -615,9 +645,12 @@ def beam_histories(draw):
     spec = draw(gb.member_specs(types=("SEG2", "SEG3")))
     ops = []
     for _ in range(draw(st.integers(3, 10))):
-        name = draw(st.sampled_from(["E", "v", "rho", "yaxis", "stretch", "bc", "bc", "solve", "solve", "matrices"]))
+        name = draw(st.sampled_from(["E", "v", "rho", "yaxis", "stretch", "section", "bc", "bc", "solve", "solve", "matrices"]))
         op = dict(op=name)
-        if name == "stretch":
+        if name == "section":
+            # another cross-section given to one member (area, inertias and shear correction factors follow it)
+            op.update(which=draw(st.integers(0, 1)), b=draw(st.integers(2, 8)) / 20.0, h=draw(st.integers(2, 8)) / 20.0)
+        elif name == "stretch":
             op.update(value=draw(st.sampled_from([0.5, 1.5, 2.0])))
         elif name == "E":
             op.update(which=draw(st.integers(0, 1)), value=draw(st.integers(2, 20)) * 10.0)
@@ -642,10 +675,10 @@ def _frame(spec, split, params):
     d = np.array(spec["d"], float)
     L = float(np.linalg.norm(d))
     pm, p2 = p1 + split * d, p1 + d
-    sec = gb._section(spec["b"], spec["h"])
     beams = []
     for (a, b, n), pr in zip(((p1, pm, split), (pm, p2, 1 - split)), params):
         line = Line(Point(*a), Point(*b), L * n / 2)
+        sec = gb._section(*pr["sec"]) if pr.get("sec") else gb._section(spec["b"], spec["h"])
         beams.append(Models.Beam.Isotropic(dim, line, sec.copy(), pr["E"], pr["v"], yAxis=tuple(pr["y"])))
     mesh = Mesher().Mesh_Beams(beams, elemType=ElemType(spec["elemType"]))
     simu = Simulations.Beam(mesh, Models.Beam.BeamStructure(beams), useTimoshenko=bool(spec["timoshenko"]))
@@ -700,6 +733,9 @@ def run_beam_history(case, rec):
         elif name == "rho":
             simu.rho = op["value"]
             st8["rho"] = op["value"]
+        elif name == "section":
+            beams[op["which"]].section = gb._section(op["b"], op["h"])
+            params[op["which"]]["sec"] = [op["b"], op["h"]]
         elif name == "yaxis":
             y = np.array(op["value"], float)
             if dim == 2 or np.linalg.norm(np.cross(y, d)) < 1e-6:
@@ -734,7 +770,7 @@ def run_beam_history(case, rec):
             a, b = orc.dense(a), orc.dense(b)
             rec.require(a.shape == b.shape, "matrix_shape", f"after {tag}: {nm_} has shape {a.shape}, a fresh simulation {b.shape}", **s2)
             rec.close(a - b, max(np.abs(b).max(), 1e-9), 1e-11, "stale_" + nm_, f"after {tag}: {nm_} differs from a freshly built simulation", **s2)
-        if built and name in ("E", "v", "rho", "yaxis", "bc", "stretch"):
+        if built and name in ("E", "v", "rho", "yaxis", "bc", "stretch", "section"):
             inval = True
         built = True
         rec.label("op:" + name)
